@@ -9,6 +9,7 @@ HARNESS = os.path.join(ROOT, "harness")
 EVID = os.path.join(ROOT, "evidence")
 REPO = "/repo"
 TLA_CP = "/opt/veriftools/tla/tla2tools.jar:/opt/veriftools/tla/CommunityModules-deps.jar"
+TLAPS_LIB = "/opt/veriftools/tlapm/lib/tlapm/stdlib"     # TLAPS.tla, for modules that carry proofs (TLC ignores the proofs)
 
 
 class ToolError(Exception):
@@ -122,7 +123,7 @@ def run_tlc(tag, module, consts, spec="Spec", invariants=(), properties=(), work
     cfg.append(extra_cfg)
     cfg_path = os.path.join(wd, f"{module}.cfg")
     open(cfg_path, "w").write("\n".join(cfg) + "\n")
-    cmd = ["java", "-XX:+UseParallelGC", "-Xss512m", "-Xmx12g", "-cp", TLA_CP, "tlc2.TLC",
+    cmd = ["java", "-XX:+UseParallelGC", "-Xss512m", "-Xmx12g", "-DTLA-Library=" + TLAPS_LIB, "-cp", TLA_CP, "tlc2.TLC",
            "-maxSetSize", "40000000", "-workers", str(workers), "-metadir", os.path.join(wd, "states"), "-cleanup",
            "-noGenerateSpecTE", "-config", cfg_path]
     if coverage:
